@@ -63,6 +63,14 @@ fn base_lists() -> Vec<Vec<ClauseSpec>> {
             single(M::C, Entry::NextCall, 7, vec![seg(Resp::Ret(312), Quant::N(0))]),
             single(M::Both, Entry::EachCall, 1, vec![seg(Resp::Unmock, Quant::Open)]),
         ],
+        vec![
+            // an answer that lends a derived instance through make_ref: whichever instance the call
+            // is routed through keeps that clone until it is torn down
+            single(M::A, Entry::EachCall, 1, vec![seg(Resp::AnsArc(LENDING_ANSWER_ID + 1), Quant::Open)]),
+            single(M::A, Entry::EachCall, 7, vec![seg(Resp::Ret(120), Quant::Open)]),
+            single(M::B, Entry::EachCall, 7, vec![seg(Resp::AnsArc(LENDING_ANSWER_ID + 2), Quant::AtLeast(1))]),
+            single(M::C, Entry::NextCall, 7, vec![seg(Resp::Ret(320), Quant::Open)]),
+        ],
     ]
 }
 
